@@ -604,3 +604,85 @@ func c02HandlerOnce(rec *kit.Rec, w *c02World, f c02Flight, report bool) bool {
 	}
 	return true
 }
+
+// TestVerifC02MidClassification: "aimed at a registration that is … already expired … never accepted" also has to hold
+// for a connection that was accepted while the registration was alive and completes its first flight after the
+// registration has expired and was swept (the handler must judge with the registry as it is, not as it was when the
+// connection arrived).  The real handler runs on a conn fed in two steps; the gap runs once the handler is parked in Read.
+// (Helpers shared with the C08 handler stage: c08Connect, c08NewCovert, c08Transport.)
+func TestVerifC02MidClassification(t *testing.T) {
+	rec := kit.NewRec("C02", "midclass")
+	defer rec.Close()
+	rng := kit.Rand("c02-midclass")
+	trs := []c08Transport{{"min", pb.TransportType_Min, 0}, {"obfs4", pb.TransportType_Obfs4, 0}}
+	for _, id := range vAllPrefixIDs[:kit.Tier(2, len(vAllPrefixIDs))] {
+		trs = append(trs, c08Transport{fmt.Sprintf("prefix-%d", id), pb.TransportType_Prefix, id})
+	}
+	n := 0
+	for rep := 0; rep < kit.Tier(1, 6); rep++ {
+		for _, tr := range trs {
+			for _, gap := range []string{"none", "expired+swept"} {
+				for _, cutKind := range []string{"inside-tag", "last-byte", "accept"} {
+					n++
+					label := fmt.Sprintf("#%d %s cut=%s gap=%s", n, tr.Name, cutKind, gap)
+					rec.CaseCheap(label)
+					s := vNewStation(t, fmt.Sprintf("c02mid/%d", n))
+					phantom := net.IPv4(198, 19, byte(1+n/250), byte(1+n%250)).To4()
+					cov := c08NewCovert(t)
+					sp := tr.spec(vSecret(rng), phantom, cov.ln.Addr().String())
+					if _, err := s.vAdmit(sp); err != nil {
+						rec.Inconclusive("the registration was refused", label)
+						cov.ln.Close()
+						continue
+					}
+					flight, err := s.vFlight(sp)
+					if err != nil {
+						rec.Inconclusive("client transport failed", label)
+						cov.ln.Close()
+						continue
+					}
+					from, to := tr.tagSpan(flight)
+					cut := 0
+					switch cutKind {
+					case "inside-tag":
+						cut = from + 1 + rng.Intn(to-from-2)
+					case "last-byte":
+						cut = to - 1
+					}
+					stream := append([]byte{}, flight...)
+					if tr.TT != pb.TransportType_Obfs4 {
+						stream = append(stream, []byte("\x10application data of the client")...)
+					}
+					before, _ := cov.settle()
+					r := c08Connect(s, phantom, 42000+n, stream, cut, func() {
+						if gap == "expired+swept" {
+							s.rm.VerifBackdate(11 * time.Minute)
+							s.rm.RemoveOldRegistrations()
+						}
+					})
+					after, ok := cov.settle()
+					cov.ln.Close()
+					if !ok || !r.returned {
+						rec.Inconclusive("the connection could not be judged", map[string]interface{}{"case": label, "returned": r.returned, "ops": r.ops})
+						continue
+					}
+					proxied := after > before
+					rec.Count("evaluations", 1)
+					rec.Distinct("nontrivial", tr.Name, cutKind, gap)
+					switch {
+					case gap == "expired+swept" && proxied:
+						rec.Violation("handler-proxied-but-must-reject:expired+swept-during-classification", "a connection whose first flight was completed after its registration had expired and was swept was proxied",
+							map[string]interface{}{"case": label, "ops": r.ops})
+					case gap == "none" && !proxied:
+						if r.realTimout || r.elapsed > 4*time.Second {
+							rec.Inconclusive("a live registration was not proxied but a real timeout may have intervened", label)
+						} else {
+							rec.Violation("handler-rejected-genuine:paused-flight", "a genuine flight that pauses during classification (registration alive throughout) was not proxied",
+								map[string]interface{}{"case": label, "ops": r.ops})
+						}
+					}
+				}
+			}
+		}
+	}
+}
